@@ -8,8 +8,6 @@ import (
 	"golang.org/x/tools/go/ssa"
 	"strings"
 
-	"golang.org/x/tools/go/types/typeutil"
-
 	"verif/sa/internal/core"
 	"verif/sa/internal/flow"
 )
@@ -115,7 +113,7 @@ func isRecvFrom(info *types.Info, n ast.Node, v *types.Var) bool {
 }
 
 func methodCallOn(info *types.Info, call *ast.CallExpr, fn *types.Func) (recv ast.Expr, ok bool) {
-	callee, _ := typeutil.Callee(info, call).(*types.Func)
+	callee, _ := flow.Callee(info, call).(*types.Func)
 	if callee == nil || callee.Origin() != fn {
 		return nil, false
 	}
@@ -289,7 +287,7 @@ func checkC14(p *core.Program, r *core.Report) {
 		info := u.Pkg.TypesInfo
 		ast.Inspect(u.Node, func(n ast.Node) bool {
 			if c, ok := n.(*ast.CallExpr); ok {
-				if fn, ok := typeutil.Callee(info, c).(*types.Func); ok && fn.FullName() == "(*net/http.Server).Close" {
+				if fn, ok := flow.Callee(info, c).(*types.Func); ok && fn.FullName() == "(*net/http.Server).Close" {
 					nClose++
 					r.Violation("O14.1", u.Name+": (*http.Server).Close", p.Pos(c.Pos()), "immediate Close drops in-flight requests; graceful shutdown requires Shutdown")
 				}
@@ -576,7 +574,7 @@ func checkServerClosures(p *core.Program, r *core.Report, u flow.FuncUnit, start
 	var shutCall *ast.CallExpr
 	ast.Inspect(startLit, func(m ast.Node) bool {
 		if c, ok := m.(*ast.CallExpr); ok {
-			if fn, ok := typeutil.Callee(info, c).(*types.Func); ok {
+			if fn, ok := flow.Callee(info, c).(*types.Func); ok {
 				switch fn.FullName() {
 				case "(*net/http.Server).ListenAndServe", "(*net/http.Server).Serve", "(*net/http.Server).ListenAndServeTLS", "(*net/http.Server).ServeTLS":
 					if sel, ok := ast.Unparen(c.Fun).(*ast.SelectorExpr); ok {
@@ -589,7 +587,7 @@ func checkServerClosures(p *core.Program, r *core.Report, u flow.FuncUnit, start
 	})
 	ast.Inspect(shutLit, func(m ast.Node) bool {
 		if c, ok := m.(*ast.CallExpr); ok {
-			if fn, ok := typeutil.Callee(info, c).(*types.Func); ok && fn.FullName() == "(*net/http.Server).Shutdown" {
+			if fn, ok := flow.Callee(info, c).(*types.Func); ok && fn.FullName() == "(*net/http.Server).Shutdown" {
 				if sel, ok := ast.Unparen(c.Fun).(*ast.SelectorExpr); ok {
 					shut = identVar(info, sel.X)
 					shutCall = c
@@ -612,7 +610,7 @@ func checkServerClosures(p *core.Program, r *core.Report, u flow.FuncUnit, start
 		detail := "context argument is not context.Background()/context.TODO(): a cancellable or expiring context cuts in-flight requests"
 		if len(shutCall.Args) == 1 {
 			if c, ok := ast.Unparen(shutCall.Args[0]).(*ast.CallExpr); ok {
-				if fn, ok := typeutil.Callee(info, c).(*types.Func); ok && (fn.FullName() == "context.Background" || fn.FullName() == "context.TODO") {
+				if fn, ok := flow.Callee(info, c).(*types.Func); ok && (fn.FullName() == "context.Background" || fn.FullName() == "context.TODO") {
 					good = true
 					detail = "Shutdown(" + fn.FullName() + "()) on the served server"
 				}
@@ -668,7 +666,7 @@ func checkServerClosures(p *core.Program, r *core.Report, u flow.FuncUnit, start
 	var serveCall *ast.CallExpr
 	ast.Inspect(startLit.Body, func(m ast.Node) bool {
 		if c, ok := m.(*ast.CallExpr); ok {
-			if fn, ok := typeutil.Callee(info, c).(*types.Func); ok {
+			if fn, ok := flow.Callee(info, c).(*types.Func); ok {
 				switch fn.FullName() {
 				case "(*net/http.Server).ListenAndServe", "(*net/http.Server).Serve", "(*net/http.Server).ListenAndServeTLS", "(*net/http.Server).ServeTLS":
 					serveCall = c
@@ -710,7 +708,7 @@ func checkServerClosures(p *core.Program, r *core.Report, u flow.FuncUnit, start
 					}
 					return val
 				case *ast.CallExpr:
-					if fn, ok := typeutil.Callee(info, x).(*types.Func); ok && fn.FullName() == "errors.Is" && len(x.Args) == 2 && isErrServerClosed(info, x.Args[1]) {
+					if fn, ok := flow.Callee(info, x).(*types.Func); ok && fn.FullName() == "errors.Is" && len(x.Args) == 2 && isErrServerClosed(info, x.Args[1]) {
 						return flow.True
 					}
 				}
@@ -753,7 +751,7 @@ func isNotErrServerClosed(info *types.Info, e ast.Expr) bool {
 	}
 	if u, ok := e.(*ast.UnaryExpr); ok && u.Op == token.NOT {
 		if c, ok := ast.Unparen(u.X).(*ast.CallExpr); ok {
-			if fn, ok := typeutil.Callee(info, c).(*types.Func); ok && fn.FullName() == "errors.Is" && len(c.Args) == 2 {
+			if fn, ok := flow.Callee(info, c).(*types.Func); ok && fn.FullName() == "errors.Is" && len(c.Args) == 2 {
 				return isErrServerClosed(info, c.Args[1])
 			}
 		}
@@ -781,7 +779,7 @@ func checkCombine(p *core.Program, r *core.Report, u flow.FuncUnit, shutLit *ast
 			// any other statement that calls the job methods is outside the recognised idiom
 			ast.Inspect(st, func(m ast.Node) bool {
 				if c, ok := m.(*ast.CallExpr); ok {
-					if fn, _ := typeutil.Callee(info, c).(*types.Func); fn != nil && (fn.Origin() == reqFn || fn.Origin() == awaitFn) {
+					if fn, _ := flow.Callee(info, c).(*types.Func); fn != nil && (fn.Origin() == reqFn || fn.Origin() == awaitFn) {
 						problems = append(problems, fmt.Sprintf("%s is called outside a range loop over the jobs at %s", fn.Name(), p.Pos(c.Pos())))
 					}
 				}
@@ -807,7 +805,7 @@ func checkCombine(p *core.Program, r *core.Report, u flow.FuncUnit, shutLit *ast
 			if !ok {
 				continue
 			}
-			fn, _ := typeutil.Callee(info, c).(*types.Func)
+			fn, _ := flow.Callee(info, c).(*types.Func)
 			if fn == nil || (fn.Origin() != reqFn && fn.Origin() != awaitFn) {
 				continue
 			}
@@ -831,7 +829,7 @@ func checkCombine(p *core.Program, r *core.Report, u flow.FuncUnit, shutLit *ast
 		if li.method == nil {
 			ast.Inspect(rs.Body, func(m ast.Node) bool {
 				if c, ok := m.(*ast.CallExpr); ok {
-					if fn, _ := typeutil.Callee(info, c).(*types.Func); fn != nil && (fn.Origin() == reqFn || fn.Origin() == awaitFn) {
+					if fn, _ := flow.Callee(info, c).(*types.Func); fn != nil && (fn.Origin() == reqFn || fn.Origin() == awaitFn) {
 						li.method = fn.Origin()
 					}
 				}
@@ -903,7 +901,7 @@ func checkRunCombines(p *core.Program, r *core.Report, u flow.FuncUnit, serverJo
 			return true
 		}
 		if c, ok := ast.Unparen(as.Rhs[0]).(*ast.CallExpr); ok {
-			if fn, _ := typeutil.Callee(info, c).(*types.Func); isSrvJob(fn) {
+			if fn, _ := flow.Callee(info, c).(*types.Func); isSrvJob(fn) {
 				if v := identVar(info, as.Lhs[0]); v != nil {
 					jobVars = append(jobVars, v)
 				}
@@ -946,7 +944,7 @@ func checkRunCombines(p *core.Program, r *core.Report, u flow.FuncUnit, serverJo
 			r.Violation("O14.4", cn, p.Pos(ret.Pos()), "Run does not return the result of a combining call")
 			return true
 		}
-		fn, _ := typeutil.Callee(info, call).(*types.Func)
+		fn, _ := flow.Callee(info, call).(*types.Func)
 		if fn == nil || !inRepoObj(fn) || isSrvJob(fn) {
 			r.Violation("O14.4", cn, p.Pos(ret.Pos()), "Run returns a single server job (%s), so stopping it leaves the other listener open", types.ExprString(ret.Results[0]))
 			return true
@@ -1028,7 +1026,7 @@ func checkCLIStop(p *core.Program, r *core.Report, c cliCommand, runCall *ast.Ca
 	var sigCh *types.Var
 	ast.Inspect(c.Action.Node, func(n ast.Node) bool {
 		if call, ok := n.(*ast.CallExpr); ok {
-			if fn, ok := typeutil.Callee(info, call).(*types.Func); ok && fn.FullName() == "os/signal.Notify" && len(call.Args) >= 2 {
+			if fn, ok := flow.Callee(info, call).(*types.Func); ok && fn.FullName() == "os/signal.Notify" && len(call.Args) >= 2 {
 				for _, a := range call.Args[1:] {
 					if isOsVar(info, a, "Interrupt") {
 						sigCh = identVar(info, call.Args[0])
@@ -1047,7 +1045,7 @@ func checkCLIStop(p *core.Program, r *core.Report, c cliCommand, runCall *ast.Ca
 			if !ok {
 				return true
 			}
-			fn, _ := typeutil.Callee(info, call).(*types.Func)
+			fn, _ := flow.Callee(info, call).(*types.Func)
 			if fn == nil || fn.Pkg() == nil || !core.InRepo(fn.Pkg().Path()) {
 				return true
 			}
